@@ -105,6 +105,8 @@ pub enum VkId { Fixed(int), Witness }
 /// honest(), a computing gadget defines its output unconditionally and cannot make the constraint system fail; an asserting gadget
 /// (connect, range checks, ...) turns `sat` into `old.sat && its condition`. Used only for the completeness (<=) directions.
 pub uninterp spec fn honest() -> bool;
+/// guard of VALUE facts: they hold for every satisfying witness and (TB-5) for the honest witness whether or not it satisfies
+pub open spec fn lv<F, const D: usize>(b: &CircuitBuilder<F, D>) -> bool { b.sat() || honest() }
 pub open spec fn bframe<F, const D: usize>(o: &CircuitBuilder<F, D>, n: &CircuitBuilder<F, D>) -> bool {
     n.pis() == o.pis() && n.verified() == o.verified()
 }
@@ -171,12 +173,16 @@ impl<F: RichField + Extendable<D>, const D: usize> CircuitBuilder<F, D> {
     pub fn add_many(&mut self, terms: &[Target]) -> (r: Target)
         ensures bframe(old(self), final(self)), bext(old(self), final(self)),
                 final(self).sat() ==> val(r) == fsum_targets(terms@),
+                honest() ==> final(self).sat() == old(self).sat(),
+                honest() ==> val(r) == fsum_targets(terms@),
     { unimplemented!() }
     /// gadgets/arithmetic.rs:223 `terms.fold(one, |acc, t| mul(acc, t))`
     #[verifier::external_body]
     pub fn mul_many(&mut self, terms: &[Target]) -> (r: Target)
         ensures bframe(old(self), final(self)), bext(old(self), final(self)),
                 final(self).sat() ==> val(r) == fprod_targets(terms@),
+                honest() ==> final(self).sat() == old(self).sat(),
+                honest() ==> val(r) == fprod_targets(terms@),
     { unimplemented!() }
     #[verifier::external_body]
     pub fn sub(&mut self, a: Target, b: Target) -> (r: Target)
@@ -196,12 +202,16 @@ impl<F: RichField + Extendable<D>, const D: usize> CircuitBuilder<F, D> {
     pub fn mul_const(&mut self, c: F, a: Target) -> (r: Target)
         ensures bframe(old(self), final(self)), bext(old(self), final(self)),
                 final(self).sat() ==> val(r) == fmul(c.fv(), val(a)),
+                honest() ==> final(self).sat() == old(self).sat(),
+                honest() ==> val(r) == fmul(c.fv(), val(a)),
     { unimplemented!() }
     /// c*x + y   (arithmetic.rs mul_const_add)
     #[verifier::external_body]
     pub fn mul_const_add(&mut self, c: F, x: Target, y: Target) -> (r: Target)
         ensures bframe(old(self), final(self)), bext(old(self), final(self)),
                 final(self).sat() ==> val(r) == fmuladd(c.fv(), val(x), val(y)),
+                honest() ==> final(self).sat() == old(self).sat(),
+                honest() ==> val(r) == fmuladd(c.fv(), val(x), val(y)),
     { unimplemented!() }
 
     // --- boolean polynomials: arithmetic.rs:345-360. NO boolean constraint on the inputs.
@@ -255,6 +265,7 @@ impl<F: RichField + Extendable<D>, const D: usize> CircuitBuilder<F, D> {
     pub fn connect_hashes(&mut self, x: HashOutTarget, y: HashOutTarget)
         ensures bframe(old(self), final(self)), bext(old(self), final(self)),
                 final(self).sat() ==> hvals(x) == hvals(y),
+                honest() ==> (final(self).sat() == (old(self).sat() && hvals(x) == hvals(y))),
     { unimplemented!() }
 
     // gadgets/split_join.rs:25 — BaseSumGate<2> limbs are boolean; Σ b_i 2^i is CONNECTED to x, i.e.
@@ -264,12 +275,18 @@ impl<F: RichField + Extendable<D>, const D: usize> CircuitBuilder<F, D> {
         ensures bframe(old(self), final(self)), bext(old(self), final(self)),
                 r@.len() == num_bits,
                 final(self).sat() && num_bits > 0 ==> all_bool(bvals(r@)) && bits_sum_from(bvals(r@), 0) % P() == val(x),
+                // TB-5 (BaseSplitGenerator: limb i = (value >> i) & 1): boolean limbs always; the sum constraint holds iff the value fits
+                honest() && 0 < num_bits <= 64 ==> all_bool(bvals(r@)) && (final(self).sat() == (old(self).sat() && val(x) < pow2i(num_bits as nat)))
+                    && (val(x) < pow2i(num_bits as nat) ==> bits_sum_from(bvals(r@), 0) == val(x)),
+                honest() && num_bits == 0 ==> final(self).sat() == old(self).sat(),
     { unimplemented!() }
     // gadgets/range_check.rs:21 — range_check IS split_le (no-op for n_log = 0)
     #[verifier::external_body]
     pub fn range_check(&mut self, x: Target, n_log: usize)
         ensures bframe(old(self), final(self)), bext(old(self), final(self)),
                 final(self).sat() && n_log > 0 ==> rc_ok(val(x), n_log as nat),
+                honest() && 0 < n_log <= 64 ==> (final(self).sat() == (old(self).sat() && val(x) < pow2i(n_log as nat))),
+                honest() && n_log == 0 ==> final(self).sat() == old(self).sat(),
     { unimplemented!() }
     // gadgets/range_check.rs:34 — two range checks and x == high*2^n_log + low IN THE FIELD
     #[verifier::external_body]
@@ -279,6 +296,9 @@ impl<F: RichField + Extendable<D>, const D: usize> CircuitBuilder<F, D> {
                 final(self).sat() ==> val(x) == fmuladd(val(r.1), pow2i(n_log as nat), val(r.0)),
                 final(self).sat() && n_log > 0 ==> rc_ok(val(r.0), n_log as nat),
                 final(self).sat() && num_bits > n_log ==> rc_ok(val(r.1), (num_bits - n_log) as nat),
+                // TB-5 (LowHighGenerator: low = x & (2^n_log - 1), high = x >> n_log): exact integer decomposition; only the high range check can fail
+                honest() ==> val(r.0) == val(x) % pow2i(n_log as nat) && val(r.1) == val(x) / pow2i(n_log as nat),
+                honest() ==> (final(self).sat() == (old(self).sat() && (num_bits > n_log ==> val(r.1) < pow2i((num_bits - n_log) as nat)))),
     { unimplemented!() }
 
     // hashing/poseidon2: sponge over the whole input sequence, no padding (TB-4)
@@ -286,6 +306,8 @@ impl<F: RichField + Extendable<D>, const D: usize> CircuitBuilder<F, D> {
     pub fn hash_n_to_hash_no_pad_p2<HH: AlgebraicHasher<F>>(&mut self, inputs: Vec<Target>) -> (r: HashOutTarget)
         ensures bframe(old(self), final(self)), bext(old(self), final(self)),
                 final(self).sat() ==> hvals(r) == H(vals(inputs@)),
+                honest() ==> final(self).sat() == old(self).sat(),
+                honest() ==> hvals(r) == H(vals(inputs@)),
     { unimplemented!() }
 
     // --- virtual targets: fresh, unconstrained wires (nothing is learnt about val)
